@@ -5,6 +5,7 @@ import (
 	"encoding/json"
 	"fmt"
 	"github.com/couchbase/gocbcore/v10/memd"
+	"os"
 	"sort"
 	"strings"
 	"time"
@@ -128,6 +129,7 @@ func init() {
 				rb = 2
 			}
 			out = append(out, Instance{Scenario: "c10_register", Params: mustJSON(struct{}{}), Bound: rb, Shards: 16, Note: "the same under every schedule within the bound during and after the disturbance"})
+			out = append(out, Instance{Scenario: "c10_staticenv", Params: mustJSON(struct{}{}), Bound: 0, Note: "static membership sized through the environment overrides while the file carries other values: same size, distinct numbers, every vBucket owned once"})
 			out = append(out, Instance{Scenario: "c10_apiretry", Params: mustJSON(struct{}{}), Bound: 0, Note: "dynamic membership: a PUT that is retried while the first one still waits inside its publication is answered 'not changed' - every numbering is announced once"})
 			out = append(out, Instance{Scenario: "c10_register", Params: mustJSON(RegisterParams{InPhase: true}), Bound: rb, Shards: 16, Note: "the leader's heart-beat and monitor rounds fall on the same instants (start-up delay a multiple of the 5 s period, as with the default)"})
 			out = append(out, Instance{Scenario: "c10_register", Params: mustJSON(struct{}{}), Bound: 0, Note: "real RPC client / handler code over an in-memory transport: registration, death, restart under the same name before / after the leader's next round"})
@@ -848,6 +850,57 @@ func init() {
 			}
 			vrt.SetOutcome(fmt.Sprintf("%s|%v", desc, seen))
 			e.D.Close()
+		}}
+	}
+}
+
+// c10_staticenv: static / stateful-set deployments whose group is sized through the environment (the documented
+// GO_DCP__DCP_GROUP_MEMBERSHIP_TOTALMEMBERS / _MEMBERNUMBER overrides) while the shared configuration file still
+// carries older values: the instances the environment describes obtain the same group size, pairwise distinct
+// numbers 1..size, and together own every vBucket exactly once.
+func init() {
+	scenarios["c10_staticenv"] = func(raw json.RawMessage) *vrt.Scenario {
+		return &vrt.Scenario{Name: "c10_staticenv", FreeChoices: true, NoTimerAlt: true, Main: func() {
+			resetGlobals()
+			fileTotal := []int{0, 1, 3, 5}[vrt.Choose(4, true, "totalMembers-in-the-file")]
+			fileMember := []int{0, 1, 3}[vrt.Choose(3, true, "memberNumber-in-the-file")]
+			envTotal := 2 + vrt.Choose(3, true, "TOTALMEMBERS-in-the-environment")
+			const nvb = 64
+			defer os.Unsetenv("GO_DCP__DCP_GROUP_MEMBERSHIP_TOTALMEMBERS")
+			defer os.Unsetenv("GO_DCP__DCP_GROUP_MEMBERSHIP_MEMBERNUMBER")
+			owners := make([]int, nvb)
+			desc := fmt.Sprintf("file: totalMembers=%d memberNumber=%d; environment: TOTALMEMBERS=%d and MEMBERNUMBER=1..%d", fileTotal, fileMember, envTotal, envTotal)
+			for m := 1; m <= envTotal; m++ {
+				os.Setenv("GO_DCP__DCP_GROUP_MEMBERSHIP_TOTALMEMBERS", fmt.Sprint(envTotal))
+				os.Setenv("GO_DCP__DCP_GROUP_MEMBERSHIP_MEMBERNUMBER", fmt.Sprint(m))
+				o := EnvOpts{MembershipType: "static"}
+				o.defaults()
+				cfg := o.config()
+				cfg.Dcp.Group.Membership.TotalMembers = fileTotal
+				cfg.Dcp.Group.Membership.MemberNumber = fileMember
+				cfg.ApplyDefaults()
+				disc := stream.NewVBucketDiscovery(nil, cfg, nvb, EventBus.New())
+				for _, vb := range disc.Get() {
+					owners[vb]++
+				}
+				mt := disc.GetMetric()
+				if mt.TotalMembers != envTotal || mt.MemberNumber != m {
+					vrt.Failf("%s: the instance started with MEMBERNUMBER=%d runs as member %d of %d", desc, m, mt.MemberNumber, mt.TotalMembers)
+				}
+			}
+			none, many := 0, 0
+			for _, n := range owners {
+				if n == 0 {
+					none++
+				}
+				if n > 1 {
+					many++
+				}
+			}
+			if none+many > 0 {
+				vrt.Failf("%s: %d of %d vBuckets have no owner, %d have more than one", desc, none, nvb, many)
+			}
+			vrt.SetOutcome(desc)
 		}}
 	}
 }
